@@ -123,6 +123,10 @@ type c20State struct {
 	cfgID string
 	fails []hbfs.Fail
 	last  string // outcome class of the last event
+	// blocks that came into existence during an AssignIP call: AssignIP's contract is to claim block
+	// affinity as needed, and the statement's cap clause is about automatically assigned addresses,
+	// so these blocks neither count towards nor trigger the MaxBlocksPerHost clause
+	viaAssignIP map[string]bool
 }
 
 type c20Conf struct {
@@ -281,6 +285,31 @@ func c20CheckGrant(s *c20State, e c20Ev, got cnet.IPNet, fail func(class, msg st
 func c20Apply(s *c20State, e c20Ev) {
 	w := s.w
 	w.bind()
+	existed := map[string]bool{}
+	for _, vb := range w.blocks() {
+		existed[vb.CIDR] = true
+	}
+	defer func() {
+		if s.viaAssignIP == nil {
+			s.viaAssignIP = map[string]bool{}
+		}
+		now := map[string]bool{}
+		for _, vb := range w.blocks() {
+			now[vb.CIDR] = true
+			if !existed[vb.CIDR] {
+				if e.Kind == "assignip" {
+					s.viaAssignIP[vb.CIDR] = true
+				} else {
+					delete(s.viaAssignIP, vb.CIDR)
+				}
+			}
+		}
+		for cidr := range s.viaAssignIP {
+			if !now[cidr] {
+				delete(s.viaAssignIP, cidr)
+			}
+		}
+	}()
 	fail := func(class, msg string) {
 		s.fails = append(s.fails, hbfs.Fail{Key: "C20:" + class, Msg: fmt.Sprintf("[%s] %s: %s", s.cfgID, e.String(), msg)})
 	}
@@ -332,18 +361,17 @@ func c20Apply(s *c20State, e c20Ev) {
 		err := w.ic.ReleaseHostAffinities(w.ctx, ipam.AffinityConfig{AffinityType: ipam.AffinityTypeHost, Host: e.Host}, false)
 		s.last = "relhost:" + errClass(err)
 	}
-	// cap on affine blocks per host, in every state
-	if w.cfg.Config != nil && w.cfg.Config.MaxBlocksPerHost > 0 {
+	// cap on affine blocks per host after every automatic assignment (blocks claimed through
+	// AssignIP are outside the clause, see viaAssignIP)
+	if e.Kind == "auto" && w.cfg.Config != nil && w.cfg.Config.MaxBlocksPerHost > 0 {
 		per := map[string][]string{}
 		for _, vb := range w.blocks() {
-			if vb.B.Affinity != nil {
+			if vb.B.Affinity != nil && !s.viaAssignIP[vb.CIDR] {
 				per[*vb.B.Affinity] = append(per[*vb.B.Affinity], vb.CIDR)
 			}
 		}
 		for aff, bl := range per {
 			if len(bl) > w.cfg.Config.MaxBlocksPerHost {
-				// class: do the blocks lie in different pools (the cap is evaluated against the
-				// blocks of the pools eligible for one request only) or in one pool?
 				pools := map[string]bool{}
 				for _, cidr := range bl {
 					ip, _, _ := net.ParseCIDR(cidr)
@@ -352,12 +380,10 @@ func c20Apply(s *c20State, e c20Ev) {
 					}
 				}
 				class := "autoassign-within-one-pool"
-				if e.Kind == "assignip" {
-					class = "assignip-claims-a-block-without-checking-the-cap"
-				} else if len(pools) > 1 {
+				if len(pools) > 1 {
 					class = "autoassign-does-not-count-blocks-outside-the-pools-eligible-for-the-request"
 				}
-				fail("more-affine-blocks-than-cap:"+class, fmt.Sprintf("%s holds %d affine blocks %v, MaxBlocksPerHost=%d", aff, len(bl), bl, w.cfg.Config.MaxBlocksPerHost))
+				fail("more-affine-blocks-than-cap:"+class, fmt.Sprintf("%s holds %d affine blocks claimed by auto-assignment %v, MaxBlocksPerHost=%d", aff, len(bl), bl, w.cfg.Config.MaxBlocksPerHost))
 			}
 		}
 	}
@@ -400,6 +426,12 @@ func c20Key(s *c20State) string {
 	for _, h := range names {
 		fmt.Fprintf(&b, "H %s %v\n", h, hs[h])
 	}
+	via := make([]string, 0, len(s.viaAssignIP))
+	for c := range s.viaAssignIP {
+		via = append(via, c)
+	}
+	sort.Strings(via)
+	fmt.Fprintf(&b, "viaAssignIP %v\n", via)
 	return b.String()
 }
 
